@@ -253,6 +253,12 @@ func TestVerifC08Alias(t *testing.T) {
 	rng := rand.New(rand.NewSource(seed*15485863 + 8))
 	thorough := os.Getenv("VERIF_C08_THOROUGH") == "1"
 	root := os.Getenv("VERIF_ROOT")
+	// (hundreds of loads, each writing the project and its .dawn directory: in memory where possible -- the disk of a
+	// busy machine makes the wall time of this child vary between 1 s and a minute)
+	if shm, err := os.MkdirTemp("/dev/shm", "verif-c08-alias-"); err == nil {
+		defer os.RemoveAll(shm)
+		root = shm
+	}
 	os.Setenv("HOME", filepath.Join(root, ".home"))
 	os.MkdirAll(filepath.Join(root, ".home"), 0755)
 	os.WriteFile(filepath.Join(root, "dawn.toml"), nil, 0644)
@@ -402,7 +408,7 @@ func TestVerifC08Alias(t *testing.T) {
 	}
 	line("aliastime", "edits", time.Since(t0).String())
 	if len(failTexts) > 0 {
-		line("text", "alias", base64.StdEncoding.EncodeToString([]byte(failTexts["edits"]+failTexts["pairs"])))
+		line("text", "alias", base64.StdEncoding.EncodeToString([]byte(failTexts["edits"]+"# ==== pairs family, BUILD.dawn: the targets `before` and `after`\n"+failTexts["pairs"])))
 	}
 	line("aliasstats", strconv.Itoa(len(bases)), strconv.Itoa(nPairs), strconv.Itoa(nCollide), strconv.Itoa(nUnjudged), strconv.Itoa(nEdits))
 	line("aliasdone", strconv.Itoa(nPairs), strconv.Itoa(nEdits))
